@@ -3,7 +3,8 @@
 (* synsets with a form): exact / normalised matching, back-off to the        *)
 (* normalised query, lemmatizer candidates, part-of-speech filter.           *)
 (* Words: records [id, lex, pos, lemma, forms (seq), senses (seq of          *)
-(* <<sense id, synset id>>)]; SynPos: synset id -> part of speech;           *)
+(* <<sense id, synset id, declaring lexicon>>)]; SynPos / SynOwn: synset id  *)
+(* -> part of speech / lexicon;                                              *)
 (* N: the normalisation table (string -> normalised string).                 *)
 EXTENDS Naturals, Sequences, FiniteSets
 Rng(s) == {s[k] : k \in DOMAIN s}
@@ -15,27 +16,30 @@ Matches(N, f, fs, normOn) == f \in fs \/ (normOn /\ N[f] \in fs)
 FormHit(N, w, fs, normOn, saf) == \E f \in StoredForms(w, saf) : Matches(N, f, fs, normOn)
 PosOK(p, q) == p = "~" \/ p = q
 
-\* one pass for one (pos, forms) candidate
-WordsPass(N, W, p, fs, normOn, saf) ==
-  {w.id : w \in {w \in W : PosOK(p, w.pos) /\ FormHit(N, w, fs, normOn, saf)}}
-SensesPass(N, W, p, fs, normOn, saf) ==
-  UNION {{s[1] : s \in Rng(w.senses)} :
+\* one pass for one (pos, forms) candidate.  W holds the words of ALL installed lexicons, S is
+\* the set of selected lexicons.  A word is in scope by its own lexicon, a sense by the lexicon
+\* that declares it (an extension may hang a sense on a word of its base) and a synset by
+\* its own; the forms looked at are always those of the word the sense belongs to.
+WordsPass(N, W, S, p, fs, normOn, saf) ==
+  {w.id : w \in {w \in W : w.lex \in S /\ PosOK(p, w.pos) /\ FormHit(N, w, fs, normOn, saf)}}
+SensesPass(N, W, S, p, fs, normOn, saf) ==
+  UNION {{s[1] : s \in {s \in Rng(w.senses) : s[3] \in S}} :
            w \in {w \in W : PosOK(p, w.pos) /\ FormHit(N, w, fs, normOn, saf)}}
-SynsetsPass(N, W, SynPos, p, fs, normOn, saf) ==
-  UNION {{s[2] : s \in {s \in Rng(w.senses) : PosOK(p, SynPos[s[2]])}} :
+SynsetsPass(N, W, S, SynPos, SynOwn, p, fs, normOn, saf) ==
+  UNION {{s[2] : s \in {s \in Rng(w.senses) : SynOwn[s[2]] \in S /\ PosOK(p, SynPos[s[2]])}} :
            w \in {w \in W : FormHit(N, w, fs, normOn, saf)}}
-Pass(kind, N, W, SynPos, p, fs, normOn, saf) ==
-  CASE kind = "words" -> WordsPass(N, W, p, fs, normOn, saf)
-    [] kind = "senses" -> SensesPass(N, W, p, fs, normOn, saf)
-    [] kind = "synsets" -> SynsetsPass(N, W, SynPos, p, fs, normOn, saf)
+Pass(kind, N, W, S, SynPos, SynOwn, p, fs, normOn, saf) ==
+  CASE kind = "words" -> WordsPass(N, W, S, p, fs, normOn, saf)
+    [] kind = "senses" -> SensesPass(N, W, S, p, fs, normOn, saf)
+    [] kind = "synsets" -> SynsetsPass(N, W, S, SynPos, SynOwn, p, fs, normOn, saf)
 
 \* cands: set of <<pos, set of forms>> proposed by the lemmatizer (the query
 \* itself under the requested part of speech when there is no lemmatizer or it
 \* proposes nothing)
 Cands(form, pos, lem) == IF lem = {} THEN {<<pos, {form}>>} ELSE lem
-Find(kind, N, W, SynPos, form, pos, lem, normOn, saf) ==
+Find(kind, N, W, S, SynPos, SynOwn, form, pos, lem, normOn, saf) ==
   LET cs == Cands(form, pos, lem)
-      first == UNION {Pass(kind, N, W, SynPos, c[1], c[2], normOn, saf) : c \in cs}
-      second == UNION {Pass(kind, N, W, SynPos, c[1], {N[x] : x \in c[2]}, normOn, saf) : c \in cs}
+      first == UNION {Pass(kind, N, W, S, SynPos, SynOwn, c[1], c[2], normOn, saf) : c \in cs}
+      second == UNION {Pass(kind, N, W, S, SynPos, SynOwn, c[1], {N[x] : x \in c[2]}, normOn, saf) : c \in cs}
   IN IF first # {} \/ ~normOn THEN first ELSE second
 =============================================================================
